@@ -141,8 +141,62 @@ def run_docs(lines, exts):
     return srcs, wants, res
 
 
+def blocks_part(rep, tier, rng, bad):
+    """ties the block-level theorem to the code: the line kinds the real classifier assigns to spelled closed documents are
+    accepted by the DFA of BlockLang.v, and the block rules in the real parser trace are the model's F; compositionality on real traces"""
+    import json, os
+    from checks import c02
+    T = json.load(open(os.path.join(common.BUILD, "gen", "parser_tables.json")))
+    blk = T["names"].index("block")
+    block_rules = {i for i, l in enumerate(T["rule_lhs"]) if l == blk}
+    drv = common.extract_driver(); har = common.build_harness("asan", "ptrace")
+    n = 60 if tier == "quick" else 1500
+    lines = []
+    for i in range(n):
+        g = Gen(rng, False)
+        parts = []
+        while len(parts) < 2:
+            k, t = g.block(None)
+            if k in ("para", "atx", "setext", "hr", "fenced", "quote"): parts.append(t)
+        sp = spelling(rng)
+        sp = " ".join(sp.split(" ")[:6] + ["0"])          # the trace harness is fed LF text
+        for t in (parts[0], parts[1], parts[0] + " " + parts[1]):
+            lines.append("1 0 %s | %s" % (sp, t))
+    mo = common.run_lines_par(drv, lines, args=["spec"], timeout=900)
+    srcs = [bytes.fromhex(m.split(" ")[0]) + b"\n" for m in mo]          # one more newline: the last block is closed by an empty line
+    raw = common.run_lines_par(har, ["%d %s" % (E["smart"] | E["notes"], s.hex()) for s in srcs], timeout=900)
+    kinds, real = [], []
+    for r in raw:
+        sessions, skipped, unparsed, open_ = c02.parse_trace(r, T)
+        top = sessions[-1] if sessions else dict(inputs=[], events=[])
+        kinds.append([k for k in top["inputs"] if k > 0])
+        real.append([int(e.split(":")[1]) for e in top["events"] if e.startswith("R:") and int(e.split(":")[1]) in block_rules])
+    # "---" on the very first line is classified LINE_YAML, elsewhere LINE_SETEXT_2 / LINE_HR: both rules build a BLOCK_HR
+    yaml_rule = T["rule_names"].index("block ::= LINE_YAML"); hr_rule = T["rule_names"].index("block ::= LINE_HR")
+    same_block = lambda l: [hr_rule if x == yaml_rule else x for x in l]
+    model = common.run_lines(drv, [",".join(map(str, k)) or "0" for k in kinds], args=["blocks"], timeout=600)
+    ok = comp = 0
+    for i, (ln, s, k, rr, m) in enumerate(zip(lines, srcs, kinds, real, model)):
+        case = dict(tokens=ln, source=s.decode("utf-8", "replace"), kinds=k)
+        st, f = (m.split(" ") + ["-"])[:2]
+        if st != "7":
+            bad.append(("spelled-block-not-closed", "the line kinds %s of a spelled closed document are not accepted by the DFA of BlockLang.v (state %s)" % (k, st), case)); continue
+        fm = [] if f == "." else [int(x) for x in f.split(",")] if f != "-" else None
+        if fm != rr:
+            bad.append(("model-vs-impl:block-rules", "block rules in the real parser trace %s, model %s" % (rr, fm), case)); continue
+        ok += 1
+        if i % 3 == 2 and same_block(real[i]) == same_block(real[i - 2] + real[i - 1]): comp += 1
+        elif i % 3 == 2:
+            bad.append(("not-compositional:parser", "real parser: blocks of u++v %s are not blocks of u %s followed by blocks of v %s" % (real[i], real[i - 2], real[i - 1]), case))
+    rep.cov["block_traces_matching_model"] = ok
+    rep.cov["real_traces_compositional"] = comp
+    return ok
+
+
 def run(rep, tier, seed):
     rep.cov["trusted_base"] = TRUSTED
+    import tr_lemon
+    tr_lemon.main()
     res = common.coq_prove("Properties_C03")
     rep.add_obligations(res, "Properties_C03")
     rng = random.Random("C03-%d" % seed)
@@ -207,7 +261,8 @@ def run(rep, tier, seed):
                             dict(tokens=clines[i], source=(csrcs[i] or b"").decode("utf-8", "replace"), got=whole.out.decode("utf-8", "replace"), want=cat.decode("utf-8", "replace"))))
             else: comp_ok += 1
         i += 1 + k
-    rep.cov["evaluations"] = len(lines) + len(clines)
+    nb = blocks_part(rep, tier, rng, bad)
+    rep.cov["evaluations"] = len(lines) + len(clines) + nb
     rep.cov["documents_rendered_as_specified"] = ok
     rep.cov["documents_compositional"] = comp_ok
     rep.cov["blocks_by_kind"] = kinds
